@@ -139,6 +139,14 @@ def tree():
     put('BASE/root/index.html', OUT_MARK)             # an ancestor's name in another letter case
     put('BASE/root/secret.txt', OUT_MARK)
     put('Base/ROOT/secret.txt', OUT_MARK)
+    # a tree with the SAME relative names beside the application script (sys.modules['__main__'].__file__), for
+    # relative roots: the root is resolved against the working directory, not against the script's directory
+    put('scriptdir/main.py', OUT_MARK)
+    put('scriptdir/root/index.html', OUT_MARK)
+    put('scriptdir/root/sub/page.txt', OUT_MARK)
+    put('scriptdir/root/only_beside_script.txt', OUT_MARK)
+    put('scriptdir/public/secret.txt', OUT_MARK)
+    os.makedirs(os.path.join(t, 'base/public'), exist_ok=True)
     # directories INSIDE the root whose names are compatibility characters that NFKC / case folding turn into path syntax
     put('base/root/\u2025/decoy.txt', IN_MARK)            # TWO DOT LEADER          -> '..'
     put('base/root/\uff0e\uff0e/top.txt', IN_MARK)        # FULLWIDTH FULL STOP x2  -> '..'
@@ -168,7 +176,7 @@ ROOTS = [
     ('{T}/base/root2', '{T}'), ('{T}/base/roo', '{T}'), ('/', '{T}'), ('//', '{T}'), ('///', '{T}'), ('/..', '{T}'),
     ('/{T}/base/root', '{T}'), ('//{T}/base/root', '{T}'), ('{T}/base/nonexistent', '{T}'),
     ('{T}/base/root\\', '{T}'), ('{T}//base///root', '{T}'), ('{T}/base', '{T}'), ('{T}', '/'),
-    ('../../../../../../../../../..', '{T}/base/work'), ('root', '/'),
+    ('../../../../../../../../../..', '{T}/base/work'), ('root', '/'), ('public', '{T}/base'), ('root', '{T}/scriptdir'),
     ('{T}/base/Root', '{T}'), ('{T}/BASE/root', '{T}'), ('Root', '{T}/base'),
     # the root names an existing REGULAR FILE: nothing lies inside it, its siblings are outside
     ('{T}/base/root/index.html', '{T}'), ('{T}/base/root/index.html/', '{T}'), ('root/index.html', '{T}/base'),
@@ -184,9 +192,9 @@ PREFIXES = ['', '', '', '/', '//', '///', '\\', '{T}/', '{T}/base/root2/', '/etc
             '..\\', './/', '{T}/base/root/../root2/']
 
 
-def mk(root, cwd, name, method='GET', rng=None, ims=None, deny=(), kw=None, root_kind='str'):
+def mk(root, cwd, name, method='GET', rng=None, ims=None, deny=(), kw=None, root_kind='str', main_dir=None, entry='pkg'):
     return dict(root=root, cwd=cwd, name=name, method=method, range=rng, ims=ims, deny=sorted(deny), kw=kw or {},
-                root_kind=root_kind)
+                root_kind=root_kind, main_dir=main_dir, entry=entry)
 
 
 def corpus():
@@ -223,6 +231,13 @@ def corpus():
         mk(A, '{T}', 'index.html', deny=['isfile']),
         mk(A, '{T}', 'index.html', deny=['exists']),
         mk(A, '{T}', '../root2/secret.txt', method='HEAD', rng='bytes=0-1'),
+        # a relative root means <cwd>/root, wherever the application script lives (seeded change C16/13)
+        mk('root', '{T}/base', 'index.html', main_dir='{T}/scriptdir'), mk('root', '{T}/base', 'only_beside_script.txt', main_dir='{T}/scriptdir'),
+        mk('root/', '{T}/base', 'sub/page.txt', main_dir='{T}/scriptdir'), mk('public', '{T}/base', 'secret.txt', main_dir='{T}/scriptdir'),
+        mk('./public', '{T}/base', '/secret.txt', main_dir='{T}/scriptdir'), mk('../root', '{T}/base/work', 'only_beside_script.txt', main_dir='{T}/scriptdir/root'),
+        mk('root', '{T}/base', 'only_beside_script.txt', main_dir='{T}/scriptdir', entry='module'),
+        mk('root', '{T}/scriptdir', 'only_beside_script.txt', main_dir='{T}/base'), mk('', '{T}/base/root', 'index.html', main_dir='{T}/scriptdir/root'),
+        mk(A, '{T}', 'index.html', main_dir='{T}/scriptdir', entry='module'), mk('root', '{T}/base', 'index.html', root_kind='path', main_dir='{T}/scriptdir'),
         # compatibility characters are not path syntax (seeded change C16/12): real directories of that name inside the root
         mk(A, '{T}', '\u2025/decoy.txt'), mk(A, '{T}', '\uff0e\uff0e/top.txt'), mk(A, '{T}', 'sub/\u2024\u2024/index.html'),
         mk(A, '{T}', '\u2025/root2/secret.txt'), mk(A, '{T}', '\uff0e\uff0e/root2/secret.txt'), mk(A, '{T}', '\uff0e\uff0e/\uff0e\uff0e/top.txt'),
@@ -255,7 +270,7 @@ def corpus():
     return out
 
 
-GOOD = [['arch.tar.gz'], ['index.html'], ['sub', 'page.txt'], ['sub', 'deep', 'x.txt'], ['root2', 'inner.txt'], ['a b.txt'],
+GOOD = [['arch.tar.gz'], ['only_beside_script.txt'], ['secret.txt'], ['index.html'], ['sub', 'page.txt'], ['sub', 'deep', 'x.txt'], ['root2', 'inner.txt'], ['a b.txt'],
         ['back\\slash.txt'], ['emptydir'], ['sub']]
 ESCAPES = [['..', 'root2', 'secret.txt'], ['..', 'root2', 'index.html'], ['..', 'rootX', 'secret.txt'],
            ['..', 'roo', 'secret.txt'], ['..', 'decoy.txt'], ['..', '..', 'top.txt'], ['..', 'root', 'index.html'],
@@ -330,7 +345,10 @@ def gen(rng, n):
         if rng.random() < 0.15:
             kw = rng.choice([dict(download=True), dict(download='other.bin'), dict(mimetype=None), dict(mimetype='text/plain', charset='latin1'),
                              dict(mimetype='application/x', download=True)])
-        yield mk(root, cwd, name, method, rg, ims, deny, kw, 'path' if rng.random() < 0.15 else 'str')
+        main_dir = rng.choice([None, '{T}/scriptdir', '{T}/scriptdir', '{T}/scriptdir/root', '{T}/base', '{T}']) \
+            if not root.startswith(('/', '{T}')) else rng.choice([None, None, '{T}/scriptdir'])
+        yield mk(root, cwd, name, method, rg, ims, deny, kw, 'path' if rng.random() < 0.15 else 'str', main_dir,
+                 'module' if rng.random() < 0.25 else 'pkg')
 
 
 def thorough():
@@ -435,8 +453,24 @@ def run_impl(case):
         if case.get('root_kind') == 'path':
             import pathlib
             root_arg = pathlib.Path(root)           # os.PathLike: abspath() takes os.fspath() of it
-        with COV:
-            resp = ombott.static_file(name, root_arg, **(case.get('kw') or {}))
+        # entry='pkg': the exported ombott.static_file (what applications import); 'module': static_stream.static_file
+        fn = ombott.static_file if case.get('entry', 'pkg') == 'pkg' else ss.static_file
+        import sys
+        main_mod = sys.modules.get('__main__')
+        had_file = hasattr(main_mod, '__file__')
+        saved_file = getattr(main_mod, '__file__', None)
+        if case.get('main_dir'):
+            # the directory of the application script is an environment parameter like the working directory
+            main_mod.__file__ = os.path.join(sub(case['main_dir']), 'main.py')
+        try:
+            with COV:
+                resp = fn(name, root_arg, **(case.get('kw') or {}))
+        finally:
+            if case.get('main_dir'):
+                if had_file:
+                    main_mod.__file__ = saved_file
+                else:
+                    del main_mod.__file__
     finally:
         ss.os = saved_os
         if had_open:
@@ -585,7 +619,8 @@ def nontrivial(case, obs):
 
 
 def key(case):
-    return (case['root'], case['name'], case['cwd'], case['method'], tuple(case['deny']), case.get('root_kind'))
+    return (case['root'], case['name'], case['cwd'], case['method'], tuple(case['deny']), case.get('root_kind'),
+            case.get('main_dir'), case.get('entry'))
 
 
 def classify(case, obs):
@@ -611,12 +646,16 @@ def shrink(case):
         yield dict(case, kw={})
     if case.get('root_kind') == 'path':
         yield dict(case, root_kind='str')
+    if case.get('entry') == 'module':
+        yield dict(case, entry='pkg')
 
 
 PREDICATES = {}
 
 API_SURFACE = [
     ('static_file(filename, root)', 'covered: names x roots x working directories over a real tree (corpus, gen, thorough)'),
+    ('ombott.static_file (package export) vs static_stream.static_file', 'covered by entry=pkg|module'),
+    ('directory of the __main__ script', 'covered by main_dir= (sys.modules[__main__].__file__ set for the call; a same-named tree lies beside it): must not matter'),
     ('root as str / os.PathLike', 'covered by root_kind=str|path (pathlib.Path)'),
     ('root / filename as bytes', 'excluded: TypeError before anything is opened (abspath(bytes) + os.sep)'),
     ('os.getcwd()', 'covered: cwd is a case field (os.chdir), model parameter'),
